@@ -183,6 +183,10 @@ class Builder(ABC):
             # the trajectory builder calculate it.
             if self.starting_mass is None:
                 self.starting_mass = self.calc_starting_mass()
+            elif self.total_fuel_mass is None:
+                # The fuel load is still needed: calculate it, but keep the
+                # starting mass given by the caller.
+                self.calc_starting_mass()
             assert self.starting_mass is not None
 
             # Do the simulation...
